@@ -45,6 +45,17 @@ theorem rt_sliced {m : M α} {e : Bytes} {a : α} (h : RT m e a) :
     rw [List.isSuffixOf_iff_suffix, hb, hs]; exact List.suffix_append _ _
   simp only [bind_def, tracked, hm, hsuf, sliceRef, if_true, pure_def]
 
+theorem rt_tracked {m : M α} {e : Bytes} {a : α} (h : RT m e a) : RT (tracked m) e (a, true) := by
+  intro rest s hs
+  obtain ⟨s1, hm, hb⟩ := h rest s hs
+  refine ⟨s1, ?_, hb⟩
+  have hsuf : s1.buf.isSuffixOf s.buf = true := by
+    rw [List.isSuffixOf_iff_suffix, hb, hs]; exact List.suffix_append _ _
+  simp only [tracked, hm, hsuf]
+
+theorem rt_sliceRef_true : RT (sliceRef true) [] () := by
+  unfold sliceRef; simp only [if_true]; exact rt_pure ()
+
 theorem rt_allocReq (n : Nat) : RT (allocReq n) [] () := by
   intro rest s hs; exact ⟨_, rfl, by simpa using hs⟩
 
@@ -861,6 +872,14 @@ theorem tr_tag {m : M α} {e : Bytes} (t : String) (h : TR m e) : TR (tag t m) e
   obtain ⟨k, hk⟩ := h p t' ht hp s hs
   refine ⟨t ++ "." ++ k, ?_⟩
   rw [tag_def]
+  cases hm : m s with
+  | mk o s1 => rw [hm] at hk; simp only at hk; subst hk; rfl
+
+theorem tr_tracked {m : M α} {e : Bytes} (h : TR m e) : TR (tracked m) e := by
+  intro p t ht hp s hs
+  obtain ⟨k, hk⟩ := h p t ht hp s hs
+  refine ⟨k, ?_⟩
+  unfold tracked
   cases hm : m s with
   | mk o s1 => rw [hm] at hk; simp only at hk; subst hk; rfl
 
